@@ -15,6 +15,6 @@ CHECK = {'pkgs': ['core/aggsigdb'],
             'between scheduling points (separate -race pass)',
  'rule': 'every interleaving (preemption-bounded DFS, state-key pruning) of 2-6 harness threads doing Await/Store/cancel on the real MemDB and '
          'MemDBV2 with a real deadliner in virtual time; distinct = distinct observable outcomes',
- 'budget_s': {'quick': 1290, 'thorough': 1200}}
+ 'budget_s': {'quick': 300, 'thorough': 1200}}
 CHECK["race_tests"] = {"core/aggsigdb": "TestVerifRaceC17"}
 CHECK["assumptions"] = SCHEDX_ASSUME
